@@ -24,6 +24,7 @@ func checkC19(c *Check, a *Anchors) {
 	renderedOutputVerbatim(c, a)
 	c19AssignmentStoredVerbatim(c, a)
 	c10CliGlobals(c, a) // the forwarded arguments and NAME=value assignments are bound before EVERY entry point that compiles tasks (Run and Status): a query that starts before the binding sees an empty CLI_ARGS
+	c10WriteOrder(c, a) // the value of NAME=value goes through the variable resolver: what it stores is the templater's result, unchanged
 }
 
 func c19NotTemplated(c *Check, a *Anchors) {
